@@ -248,6 +248,17 @@ def r1_scan(program, rep):
             bits = [x for x in (band[2], band[3])
                     if _mask_form(fl, x) is not None]
             occ = [x for x in (band[2], band[3]) if x not in bits]
+            if not bits and any(
+                    isinstance(x, tuple) and x and x[0] in ("mu", "phi")
+                    for x in (band[2], band[3])):
+                # the pattern tested is carried from pass to pass of the
+                # scan (shifted by one each time) instead of being worked
+                # out from the position: a loop invariant these rules do
+                # not derive
+                raise AnalysisError("_assign_field: the bits tested at a "
+                                    "position are carried along the scan "
+                                    "(pattern <<= 1), not computed from the "
+                                    "position; that form is not read")
             okc = len(bits) == 1 and len(occ) == 1
             if okc:
                 mL, mS = _mask_form(fl, bits[0])
